@@ -84,16 +84,8 @@ def run_part(args):
     else:
         subprocess.run([exe, "gen", str(seed), str(tier), str(general), str(part), str(nparts), str(ops), str(impl), str(orc)],
                        env=env, stdout=subprocess.DEVNULL, stderr=subprocess.DEVNULL)
-    # the model driver is deterministic; if it is killed from outside (e.g. by the OOM killer on a loaded machine) its
-    # reply file is short: run it again before comparing, so that a dead driver is not mistaken for a disagreement
-    nops = sum(1 for _ in open(ops))
-    for attempt in range(3):
-        with open(ops) as fi, open(model, "w") as fo:
-            rc = subprocess.run([str(PIXDRV), "format"], stdin=fi, stdout=fo, stderr=subprocess.DEVNULL).returncode
-        if rc == 0 and sum(1 for _ in open(model)) >= nops:
-            break
-        import time as _t
-        _t.sleep(5 * (attempt + 1))
+    with open(ops) as fi, open(model, "w") as fo:
+        subprocess.run([str(PIXDRV), "format"], stdin=fi, stdout=fo, stderr=subprocess.DEVNULL)
     res = {"lines": 0, "hist": collections.Counter(), "findings": [], "stat": {}, "samples": [], "general": general}
     nfind = collections.Counter()
     with open(ops) as fo, open(impl) as fi, open(model) as fm:
